@@ -60,7 +60,7 @@ def wiring(ctx: Ctx, rule="R-C11-WIRING") -> None:
     ok = len(rc) == 1 and dotted(C.arg(rc[0], 1, "actors")) == "actors" and dotted(C.arg(rc[0], 0, "consumer")) == "consumer"
     ctx.check(ok, rule, r1, "_run_consumer(consumer, actors)", "this queue's consumer, the worker's actors", "run_one_queue does not run the consume loop on its own consumer and actors", instance="_run_consumer arguments")
     gcf = ctx.func(f"{C.MB}.get_consumer")
-    mk = [x for x in ast.walk(gcf.node) if isinstance(x, ast.Call) and dotted(x.func) == "self.CONSUMER_CLASS"]
+    mk = [x for x in ast.walk(gcf.node) if isinstance(x, ast.Call) and dotted(C.injected_default(gcf, x.func)) == "self.CONSUMER_CLASS"]
     ctx.require(len(mk) == 1, f"{gcf.qualname}: CONSUMER_CLASS(...) not found")
     ok = [unparse(a) for a in mk[0].args] == ["self", "queue_name", "topics", "max_unacked_messages", "category"] and not mk[0].keywords
     ctx.check(ok, rule, gcf, "CONSUMER_CLASS(self, queue_name, topics, max_unacked_messages, category)", "positional hand-over", f"get_consumer builds {unparse(mk[0])[:100]}", node=mk[0], instance="consumer construction")
